@@ -165,6 +165,28 @@ def planted(kind, mode):
         defvjp(f, lambda ans, x: lambda g: g * dr(x))
         defjvp(f, lambda g, ans, x: g * df(x))
         return f, (lambda rng: onp.array([rng.uniform(0.5, 1.2) for _ in range(3)])), "both"
+    if kind in ("cross-mode-helper-vjp-factor", "cross-mode-helper-jvp-factor", "ok-cross-mode-helper"):
+        # the rule of ONE mode is written with a helper primitive whose rule for the OTHER mode is defective: only the mixed
+        # second derivatives (reverse over forward, forward over reverse) pass through the defect
+        mv = 1.5 if kind == "cross-mode-helper-vjp-factor" else 1.0
+        mj = 1.5 if kind == "cross-mode-helper-jvp-factor" else 1.0
+
+        @primitive
+        def scale(t, x):
+            return t * x
+        defjvp(scale, lambda g, ans, t, x: g * x, lambda g, ans, t, x: t * g * mj)
+        defvjp(scale, lambda ans, t, x: lambda c: c * x, lambda ans, t, x: lambda c: mv * c * t)
+
+        @primitive
+        def f(x):
+            return 0.5 * x ** 2
+        if kind == "cross-mode-helper-jvp-factor":
+            defvjp(f, lambda ans, x: lambda g: scale(g, x))
+            defjvp(f, lambda g, ans, x: g * x)
+        else:
+            defvjp(f, lambda ans, x: lambda g: g * x)
+            defjvp(f, lambda g, ans, x: scale(g, x))
+        return f, (lambda rng: onp.array([rng.uniform(0.5, 1.2) for _ in range(3)]) + 1.0), "both"
     if kind in ("tangent-helper-factor", "tangent-helper-sign", "ok-tangent-helper"):
         # the rule routes its (co)tangent through a helper primitive whose VALUE is right and whose own derivative is
         # defective: the first-order derivative is right, and so is its dependence on x - only its dependence on the
@@ -252,7 +274,8 @@ def main():
     trials = cfg["trials"]
     for kind in ("ok-scalar", "ok-matrix", "ok-reduction", "ok-complex", "factor", "sign", "transpose", "entry",
                  "dropped-reduction", "complex-conj", "ok-second-order", "second-order-factor", "second-order-sign",
-                 "second-order-zero", "ok-cross-mode", "cross-mode-factor", "cross-mode-sign", "ok-tangent-helper",
+                 "second-order-zero", "ok-cross-mode", "cross-mode-factor", "cross-mode-sign", "ok-cross-mode-helper",
+                 "cross-mode-helper-vjp-factor", "cross-mode-helper-jvp-factor", "ok-tangent-helper",
                  "tangent-helper-factor", "tangent-helper-sign", "nan-entry", "nan-scalar", "ok-zero-sum", "zero-sum-transpose", "zero-sum-permutation",
                  "ok-tuple-output", "tuple-output-sign", "tuple-output-factor"):
         for mode in ("rev", "fwd"):
